@@ -121,7 +121,7 @@ def random_script(rng, name_no, nops, smaller=False):
 
 def run(ctx):
     rng = ctx.rng
-    prefix = "vf%d" % os.getpid()
+    prefix = "vf%d_names_that_share_a_long_common_prefix" % os.getpid()      # names differ only in their last characters
     name_no = [0]
     caps = [1, 2] if ctx.quick else [1, 2, 3, 4]
     ctx.design_must_hold("ipc/ShmBufAbs.tla", expect_actions=["AWrite", "ARead", "AClear"])
